@@ -1,7 +1,7 @@
 SPECIFICATION Spec
 CONSTANTS
   ClientClasses = {"trunc_header", "trunc_body", "len_huge", "garbage_bytes", "len_zero_with_body", "len_short", "len_long", "response_bit", "response_opcode", "unknown_version", "bad_opcode", "compressed_flag_no_codec", "bad_compressed_block", "bad_string_len", "bad_map_len", "bad_batch_count", "empty_execute_id", "bad_consistency", "hostile_use", "hostile_prepare_ks", "hostile_query_text", "hostile_register", "hostile_startup", "hostile_auth", "nonreader_flood"}
-  BackendClasses = {"b_unknown_stream", "b_bad_event_on_control", "b_unsolicited_result", "b_wrong_opcode", "b_short_error", "b_garbage", "b_unsolicited_event", "b_truncated_result", "b_unprepared_unknown_id", "b_compressed_flag", "b_error_for_heartbeat"}
+  BackendClasses = {"b_unknown_stream", "b_bad_event_on_control", "b_unsolicited_result", "b_wrong_opcode", "b_short_error", "b_garbage", "b_unsolicited_event", "b_truncated_result", "b_unprepared_unknown_id", "b_compressed_flag", "b_error_for_heartbeat", "b_prepare_wrong_result"}
   LenFields = {"QUERY_text", "QUERY_nvalues", "QUERY_value", "QUERY_paging", "PREPARE_text", "EXECUTE_id", "EXECUTE_nvalues", "EXECUTE_value", "EXECUTE_paging", "BATCH_count", "BATCH_text", "BATCH_nvalues", "BATCH_value", "BATCH_id", "BATCH_value2", "REGISTER_count", "REGISTER_item", "STARTUP_count", "STARTUP_key", "STARTUP_value", "AUTH_token"}
   MaxLen = 3
 INVARIANTS ProcessAlive EveryClassHasVerdict Export
